@@ -46,7 +46,7 @@ def system_check(ctx, pid, n_hist, gen_kwargs, reopen_prob=0.0, max_gen=1, nops=
             continue
         if extra_oracle is not None:
             extra_oracle(ctx, cfg, ops, sizes, rp, run)
-        cases.append(sysrun.render_case(cfg, ops, run.outs, run.view))
+        cases.append(sysrun.render_case(cfg, ops, run.outs, run.view, rp))
         metas.append((cfg, ops, sizes, rp, run))
     res, err = sysrun.coq_results(cases, pid + 'sys')
     if res is None:
@@ -69,7 +69,7 @@ def system_check(ctx, pid, n_hist, gen_kwargs, reopen_prob=0.0, max_gen=1, nops=
             mc, small, srp, want = cfg, ops, sorted(rp), (kind, 'unshrunk')
         else:
             r2 = sysrun.execute(mc, small, sizes, srp)
-            chk, _ = sysrun.coq_results([sysrun.render_case(mc, small, r2.outs, r2.view)], pid + 'cfm') if r2.fail is None else ([1], None)
+            chk, _ = sysrun.coq_results([sysrun.render_case(mc, small, r2.outs, r2.view, srp)], pid + 'cfm') if r2.fail is None else ([1], None)
             if not chk or chk[0] == 0:
                 mc, small, srp, want = cfg, ops, sorted(rp), (kind, 'unshrunk')
         sig = sysrun.signature(pid, mc, small, srp, want)
